@@ -95,6 +95,17 @@ func setOpts(t tokenizers.ITokenizer, bits int) {
 	t.SetDecodeStrings(bits&64 != 0)
 }
 
+// setOptsRev: the same options set in the opposite order of calls
+func setOptsRev(t tokenizers.ITokenizer, bits int) {
+	t.SetDecodeStrings(bits&64 != 0)
+	t.SetUnifyNumbers(bits&32 != 0)
+	t.SetMergeWhitespaces(bits&16 != 0)
+	t.SetSkipEof(bits&8 != 0)
+	t.SetSkipComments(bits&4 != 0)
+	t.SetSkipWhitespaces(bits&2 != 0)
+	t.SetSkipUnknown(bits&1 != 0)
+}
+
 func optList(bits int) []string {
 	out := []string{}
 	for i, n := range optNames {
@@ -162,7 +173,16 @@ func tokenize(kind string, bits int, input string) (toks [][]any, outcome, detai
 	var res []*tokenizers.Token
 	outcome, detail = guarded(func() {
 		t := newTokenizer(kind)
-		setOpts(t, bits)
+		tokenizeCount++
+		switch tokenizeCount % 3 {
+		case 0:
+			setOpts(t, bits)
+		case 1:
+			setOptsRev(t, bits)
+		default: // everything on first, then what is not wanted off again (in the reverse order)
+			setOpts(t, 127)
+			setOptsRev(t, bits)
+		}
 		res = t.TokenizeBuffer(input)
 	})
 	if outcome != "ok" {
@@ -222,6 +242,7 @@ func (s *internedWS) SetWhitespaceChars(from, to rune, enable bool) {
 }
 func (s *internedWS) ClearWhitespaceChars() { s.inner.ClearWhitespaceChars() }
 
+var tokenizeCount = 0
 var tokCount = 0
 
 func tokRender(ts []*tokenizers.Token) string {
